@@ -505,14 +505,21 @@ func TestStopRightAfterStarted(t *testing.T) {
 				default:
 					continue
 				}
-				func() {
-					defer func() {
-						if r := recover(); r != nil {
-							t.Fatalf("violation: Stop() panicked although Started() is closed: %v", r)
-						}
-					}()
+				// RunHandlers is still busy with the other handlers (its goroutine is parked): Stop of a started handler
+				// must not wait for it
+				stopRet := make(chan any, 1)
+				go func() {
+					defer func() { stopRet <- recover() }()
 					h.Stop()
 				}()
+				select {
+				case r := <-stopRet:
+					if r != nil {
+						t.Fatalf("violation: Stop() panicked although Started() is closed: %v", r)
+					}
+				case <-time.After(lib.Live):
+					t.Fatalf("violation: Stop() of a handler whose Started() is closed did not return within %v while RunHandlers was still starting other handlers", lib.Live)
+				}
 				if h.Stopped() == nil {
 					t.Fatalf("violation: Stopped() is nil although Started() is closed")
 				}
@@ -698,6 +705,91 @@ func TestCloseDuringStartup(t *testing.T) {
 		lib.Case(fmt.Sprintf("close-startup|%d|%d|%v", n, skip, late), achieved, "close-during-startup", fmt.Sprintf("achieved=%v", achieved))
 		if achieved {
 			lib.Sample(map[string]any{"test": "CloseDuringStartup", "handlers": n, "close_after_starts": skip + 1, "during_user_RunHandlers": late})
+		}
+	})
+}
+
+
+// ---------- forced: the Run context ends, or Run is called again, while the router is still starting ----------
+
+func TestStartupInterference(t *testing.T) {
+	rapid.Check(t, func(t *rapid.T) {
+		n := rapid.IntRange(1, 4).Draw(t, "handlers")
+		skip := rapid.IntRange(0, n-1).Draw(t, "afterStarts")
+		action := rapid.SampledFrom([]string{"cancel-before-run", "cancel-during-startup", "second-run-during-startup"}).Draw(t, "action")
+		router, err := message.NewRouter(message.RouterConfig{CloseTimeout: 5 * time.Second}, watermill.NopLogger{})
+		if err != nil {
+			t.Fatalf("NewRouter: %v", err)
+		}
+		ctl := lib.Install()
+		defer ctl.Uninstall()
+		for i := 0; i < n; i++ {
+			router.AddNoPublisherHandler(fmt.Sprintf("h%d", i), "t", lib.NewScriptSub(""), func(*message.Message) error { return nil })
+		}
+		ctx, cancel := context.WithCancel(context.Background())
+		defer cancel()
+		runRet := make(chan error, 1)
+		achieved := true
+		var park *lib.Parked
+		if action == "cancel-before-run" {
+			cancel()
+		} else {
+			park = ctl.Park("router.runhandlers.started", nil, skip)
+		}
+		go func() { runRet <- router.Run(ctx) }()
+		if park != nil {
+			achieved = park.WaitReached(200 * time.Millisecond)
+			if !achieved {
+				// start-up got past the point already: the first Run has certainly begun once Running() is closed
+				select {
+				case <-router.Running():
+				case <-time.After(lib.Live):
+					t.Fatalf("harness: router did not start")
+				}
+			}
+		}
+		switch action {
+		case "second-run-during-startup":
+			second := make(chan error, 1)
+			go func() {
+				defer func() {
+					if r := recover(); r != nil {
+						second <- nil
+					}
+				}()
+				second <- router.Run(context.Background())
+			}()
+			select {
+			case err := <-second:
+				if err == nil {
+					t.Fatalf("violation: a second Run (first one still starting: %v) returned nil or panicked instead of an error", achieved)
+				}
+			case <-time.After(lib.Live):
+				t.Fatalf("violation: a second Run (first one still starting: %v) did not return an error within %v", achieved, lib.Live)
+			}
+			park.Release()
+			cancel()
+		case "cancel-during-startup":
+			cancel()
+			time.Sleep(time.Duration(rapid.IntRange(0, 3).Draw(t, "releaseDelayMs")) * time.Millisecond)
+			park.Release()
+		}
+		// the Run context has ended in every variant by now: the router closes itself and Run returns nil
+		select {
+		case err := <-runRet:
+			if err != nil {
+				t.Fatalf("violation: Run returned %v after its context was cancelled (%s), want nil", err, action)
+			}
+		case <-time.After(lib.Live):
+			router.Close()
+			t.Fatalf("violation: Run did not return within %v after its context was cancelled (%s)", lib.Live, action)
+		}
+		if !router.IsClosed() {
+			t.Fatalf("violation: Run returned after its context was cancelled (%s) but the router is not closed", action)
+		}
+		lib.Case(fmt.Sprintf("startup|%s|%d|%d", action, n, skip), achieved, "startup-interference", action, fmt.Sprintf("achieved=%v", achieved))
+		if achieved {
+			lib.Sample(map[string]any{"test": "StartupInterference", "action": action, "handlers": n, "after_starts": skip + 1})
 		}
 	})
 }
